@@ -65,6 +65,60 @@ def _canonical_filter(f):
     return g
 
 
+def codec_agreement(ctx):
+    """R15.6: the bytes have to be produced by the encoder of the encoding that a *reader* resolves the declared label to (the
+    reader goes through webencodings / the Encoding standard: `latin1` means windows-1252, `big5` means Big5-HKSCS, ...).
+    Encoding with `str.encode(<the label as passed>)` uses Python's codec of that name instead, which differs for these labels.
+    R15.7: the output is encoded chunk by chunk; a codec that writes a signature (BOM) at the start of every call -- Python's
+    `utf-16` / `utf-32` -- or keeps shift state between calls therefore needs one incremental encoder for the whole output."""
+    r = ctx.r
+    r.rule("R15.6", "output bytes come from the encoder of the encoding the declared label resolves to for a reader", floor=1)
+    r.rule("R15.7", "chunk-wise encoding uses one incremental encoder (no per-chunk signature / shift state)", floor=1)
+    cls = ctx.repo.cls("serializer.py", "HTMLSerializer")
+    ser = cls.find_method("serialize")
+    stores = [a for a in ast.walk(ser.node) if isinstance(a, ast.Assign) and norm(a.targets[0]) == "self.encoding"]
+    raw_label = len(stores) == 1 and isinstance(stores[0].value, ast.Name) and stores[0].value.id in ser.params()
+    encs = []
+    for nm in ("encode", "encodeStrict"):
+        m = cls.find_method(nm)
+        if m is None:
+            raise AnalysisError("HTMLSerializer.%s vanished" % nm)
+        for c in ast.walk(m.node):
+            if isinstance(c, ast.Call) and isinstance(c.func, ast.Attribute) and c.func.attr == "encode" and c.args:
+                encs.append((nm, c))
+    by_label = [(nm, c) for nm, c in encs if norm(c.args[0]) == "self.encoding" and norm(c.func.value) in [p for p in ("string", "s", "data", "text")] + [cls.find_method(nm).params()[1]]]
+    resolved = any("lookup" in norm(n) for n in ast.walk(ser.node) if isinstance(n, ast.Call)) or \
+        any("codec_info" in norm(c) or "incrementalencoder" in norm(c) for _, c in encs)
+    r.idiom("R15.6", bool(encs) and resolved and not by_label, "encoder-of-declared-label", ser.where,
+            "how the serializer picks its encoder was not recognised",
+            wrong=[(raw_label and len(by_label) == len(encs) and not resolved,
+                    "text is encoded with str.encode(<label as passed>), i.e. Python's codec of that name, while a reader resolves the declared "
+                    "label through the Encoding standard: serialize(parse('<p>\\x85</p>'), encoding='latin1') writes the byte 0x85 under "
+                    "<meta charset=latin1>, which is read back as windows-1252 (U+2026); shift_jis writes U+00A5 as 0x5C")])
+    # R15.8: inside raw-text elements (script, style, ...) a reader decodes no character references, so replacing an
+    # unencodable character by `&name;` there silently changes the text
+    from .c08 import _text_arm
+    r.rule("R15.8", "raw text is not passed through the reference-replacing encoder without a report", floor=1)
+    arm = _text_arm(ser)
+    raw_yields = []
+    if arm is not None:
+        for st in arm.body:
+            for y in ast.walk(st):
+                if isinstance(y, ast.Yield) and y.value is not None and norm(y.value) == "self.encode(token['data'])":
+                    raw_yields.append(y)
+    reports = arm is not None and any("encod" in norm(c).lower() and "serializeError" in norm(c) for st in arm.body for c in ast.walk(st) if isinstance(c, ast.Call))
+    r.idiom("R15.8", arm is not None and not raw_yields, "raw-text-encoder", ser.where, "how raw text is encoded was not recognised",
+            wrong=[(bool(raw_yields) and not reports,
+                    "the text of script / style / xmp / ... is written through encode(), whose error handler replaces an unencodable character "
+                    "by a character reference; a reader does not decode references there: a script whose text is `s = 'caf\\xe9'`, rendered as "
+                    "ascii, becomes `s = 'caf&eacute;'` and stays that way, and no error is reported")])
+    incremental = any("incrementalencoder" in norm(n) for n in ast.walk(cls.node))
+    r.idiom("R15.7", incremental, "one-encoder-for-all-chunks", ser.where, "chunk-wise encoding: no incremental encoder found",
+            wrong=[(bool(by_label) and not incremental,
+                    "every chunk is encoded by a separate str.encode() call: with encoding='utf-16' each chunk starts with a byte-order mark "
+                    "(b'\\xff\\xfe<\\x00h\\x00...\\xff\\xfe>\\x00'), read back as U+FEFF inside tag names")])
+
+
 def run(ctx):
     r = ctx.r
     ce, repo = ctx.ce, ctx.repo
@@ -261,6 +315,7 @@ def run(ctx):
     from . import c14
     r.rule("R14.5", "every named reference the encoder emits decodes back to the same character; form is &name; or &#x..;", floor=1000)
     c14.reverse_map(ctx, ce.const("constants.py", "entities"))
+    codec_agreement(ctx)
 
 
 def thorough(ctx):
